@@ -422,6 +422,11 @@ class C02(Prop):
                 yield {"kind": "text", "src": t["template"], "data": t["data"], "templates": t.get("templates") or {},
                        "mode": mode}
 
+        for ji, junk_v in enumerate(JUNK):
+            yield {"kind": "text", "src": "{% include 'a' %}{% render 'b', y: x %}{% include 'card' for x %}",
+                   "data": {"uid": junk_v, "x": junk_v}, "templates": {}, "ns_key": "uid",
+                   "mode": "async" if ji % 2 else "sync"}
+
         for ni, name in enumerate(HOSTILE_NAMES):
             for loader in LOADERS:
                 for ti, tag in enumerate(LOAD_TAGS):
@@ -509,7 +514,16 @@ class C02(Prop):
             res.labels.append("filter:" + case["name"])
 
         data = decode_junk(data)
-        env = make_env(templates, shopify=shopify, limits=case.get("limits"))
+        if case.get("ns_key"):
+            # a caching loader whose cache key is built from a render-context variable
+            from liquid2 import CachingDictLoader
+
+            all_t = dict(PARTIALS)
+            all_t.update(templates)
+            env = make_env(shopify=shopify, limits=case.get("limits"),
+                           loader=CachingDictLoader(all_t, namespace_key=case["ns_key"]))
+        else:
+            env = make_env(templates, shopify=shopify, limits=case.get("limits"))
         if case.get("limits"):
             res.labels.append("limits")
         try:
